@@ -12,12 +12,15 @@ package main
 // schedule-deterministic by the token scheduler, reports nothing.
 
 import (
+	"flag"
 	"fmt"
 	"math/rand"
 	"os"
+	"os/exec"
 	"path/filepath"
 	"regexp"
 	"sort"
+	"strings"
 	"sync"
 
 	"github.com/jmeaster30/vore/libvore"
@@ -46,6 +49,7 @@ type c19 struct {
 	// monitorOff: the tree uses synchronisation the own HB monitor does not
 	// model (atomics, sync.Map, sync.Pool); the race detector still decides.
 	monitorOff bool
+	nHeavy     int
 }
 
 func init() { register(&c19{}) }
@@ -58,11 +62,15 @@ func (c *c19) Phases(tier string) []PhaseSpec {
 			{Name: "plain", Runs: 1500000, Note: "seeded schedules, value/monitor/deadlock oracles"},
 			{Name: "race", Runs: 150000, Race: true, Note: "same generator under the Go race detector"},
 			{Name: "pairsweep", Runs: 0, Sweep: true, Note: "every single preemption on each of the first access/lock events for every ordered pair of regex programs"},
+			{Name: "cold", Runs: 4000, Cold: true, Note: "one fresh process per run: the first vore calls of the process are concurrent"},
+			{Name: "coldrace", Runs: 1000, Race: true, Cold: true, Note: "cold starts under the race detector"},
 		}
 	}
 	return []PhaseSpec{
 		{Name: "plain", Runs: 6000, Note: "seeded schedules, value/monitor/deadlock oracles"},
 		{Name: "race", Runs: 600, Race: true, Note: "same generator under the Go race detector"},
+		{Name: "cold", Runs: 160, Cold: true, Note: "one fresh process per run: the first vore calls of the process are concurrent"},
+		{Name: "coldrace", Runs: 64, Race: true, Cold: true, Note: "cold starts under the race detector"},
 	}
 }
 
@@ -92,18 +100,81 @@ func coarse(s string) string {
 	return s
 }
 
-func (c *c19) Init(env *Env) error {
-	c.env = env
+// c19refs is what the reference child process computes and every other process loads:
+// no process that runs simulated phases executes vore code before its first run, so
+// the first calls of a process happen inside a concurrent phase (cold start).
+type c19refs struct {
+	Pool   []Item      `json:"pool"`
+	NHeavy int         `json:"n_heavy"`
+	Solo   []Outcome   `json:"solo"`
+	SoloC  []Outcome   `json:"solo_compile"`
+	SoloF  []Outcome   `json:"solo_runfiles"`
+	SoloV  [][]Outcome `json:"solo_variants"`
+	Steps  []uint64    `json:"steps"`
+}
+
+// heavy items: beyond the sizes of the ordinary corpus (texts of 64 KiB and more, tens
+// of thousands of matches, sources larger than a read buffer). Drawn rarely.
+func c19heavy() []Item {
+	z := strings.Repeat("z", 65536)
+	many := strings.Repeat("q", 17000)
+	return []Item{
+		{Name: "heavy-64k-three-commands", Src: "find all 'ab'\nfind all digit\nfind all 'b1'", Text: z + "ab ab1 b1 7"},
+		{Name: "heavy-64k-set-then-find", Src: "set p to pattern 'a' or 'b'\nfind all p p\nfind all '1'", Text: z + "ab ba 1"},
+		{Name: "heavy-17000-matches-after-set", Src: "set x to pattern 'k'\nfind all any", Text: many},
+		{Name: "heavy-big-source-generator-error", Src: strings.Repeat("find all 'abc' digit\nfind top 2 letter 'x'\n", 220) + "find all undefinedname", Text: "abc1"},
+		{Name: "heavy-big-source-ok", Src: strings.Repeat("find all 'abc' digit\n", 260), Text: "abc1 abc2"},
+	}
+}
+
+func (c *c19) computeRefs(env *Env) (*c19refs, error) {
 	corp, err := loadCorpus(env.VerifDir)
 	if err != nil {
-		return err
+		return nil, err
 	}
-	var inv inventoryFile
-	if readJSON(env.Inventory, &inv) == nil && len(inv.Unmodelled) > 0 {
-		c.monitorOff = true
+	r := &c19refs{}
+	dir := filepath.Join(env.ScratchS, fmt.Sprintf("c19refs-%d", os.Getpid()))
+	os.MkdirAll(dir, 0755)
+	defer os.RemoveAll(dir)
+	add := func(it Item, heavy bool) error {
+		simrt.Reset(1, nil, 7)
+		simrt.Solo()
+		rand.Seed(12345)
+		simrt.OpStart(300000000)
+		o := doCompileRun(it.Src, it.Text)
+		simrt.OpEnd()
+		st := simrt.Steps
+		simrt.Stop()
+		if o.Class == "abort" || (!heavy && st > 60000) {
+			return nil // too slow for a concurrency workload
+		}
+		fn := filepath.Join(dir, fmt.Sprintf("f%03d.txt", len(r.Pool)))
+		if err := os.WriteFile(fn, []byte(it.Text), 0644); err != nil {
+			return err
+		}
+		simrt.Reset(1, nil, 7)
+		simrt.Solo()
+		rand.Seed(12345)
+		v, oc := doCompile(it.Src)
+		var of Outcome
+		var ov []Outcome
+		if v != nil {
+			of, _ = doRunFiles(v, []string{fn}, engine.NOTHING, dir)
+			for _, tx := range textVariants(it.Text) {
+				ov = append(ov, doRun(v, tx))
+			}
+		} else {
+			of = oc
+		}
+		simrt.Stop()
+		r.Pool = append(r.Pool, it)
+		r.Solo = append(r.Solo, o)
+		r.Steps = append(r.Steps, st)
+		r.SoloC = append(r.SoloC, oc)
+		r.SoloF = append(r.SoloF, of)
+		r.SoloV = append(r.SoloV, ov)
+		return nil
 	}
-	c.worldR = filepath.Join(env.ScratchS, fmt.Sprintf("c19files-%d", os.Getpid()))
-	os.MkdirAll(c.worldR, 0755)
 	for _, it := range corp.Items {
 		if len(it.Text) > 160 {
 			it.Text = it.Text[:160]
@@ -111,54 +182,76 @@ func (c *c19) Init(env *Env) error {
 		if len(it.Src) > 1500 {
 			continue
 		}
-		c.pool = append(c.pool, it)
-	}
-	// solo references
-	kept := c.pool[:0]
-	for _, it := range c.pool {
-		simrt.Reset(1, nil, 7)
-		simrt.Solo()
-		rand.Seed(12345)
-		simrt.OpStart(3000000)
-		o := doCompileRun(it.Src, it.Text)
-		simrt.OpEnd()
-		st := simrt.Steps
-		simrt.Stop()
-		if o.Class == "abort" || st > 60000 {
-			continue // too slow for a concurrency workload
+		if err := add(it, false); err != nil {
+			return nil, err
 		}
-		kept = append(kept, it)
-		c.solo = append(c.solo, o)
-		c.steps = append(c.steps, st)
 	}
-	c.pool = kept
+	n := len(r.Pool)
+	for _, it := range c19heavy() {
+		if err := add(it, true); err != nil {
+			return nil, err
+		}
+	}
+	r.NHeavy = len(r.Pool) - n
+	return r, nil
+}
+
+func c19refsMain(args []string) int {
+	fs := flag.NewFlagSet("c19refs", flag.ExitOnError)
+	env := envFromFlags(fs)
+	out := fs.String("out", "", "")
+	fs.Parse(args)
+	simProcessSetup()
+	c := &c19{}
+	r, err := c.computeRefs(env)
+	if err != nil {
+		fmt.Fprintln(os.Stderr, "c19refs:", err)
+		return 2
+	}
+	if err := writeJSON(*out, r); err != nil {
+		return 2
+	}
+	return 0
+}
+
+func (c *c19) Init(env *Env) error {
+	c.env = env
+	var inv inventoryFile
+	if readJSON(env.Inventory, &inv) == nil && len(inv.Unmodelled) > 0 {
+		c.monitorOff = true
+	}
+	path := filepath.Join(env.ScratchS, "out", "c19refs.json")
+	var r c19refs
+	if readJSON(path, &r) != nil || len(r.Pool) == 0 {
+		// computed by a child process, so that this process stays cold
+		os.MkdirAll(filepath.Dir(path), 0755)
+		tmp := fmt.Sprintf("%s.%d", path, os.Getpid())
+		cmd := exec.Command(env.Self, "c19refs", "-verif", env.VerifDir, "-repo", env.RepoDir, "-scratch", env.ScratchS, "-inventory", env.Inventory, "-out", tmp)
+		cmd.Env = append(os.Environ(), "GOMAXPROCS=1", "GORACE=halt_on_error=0")
+		if out, err := cmd.CombinedOutput(); err != nil {
+			return fmt.Errorf("C19 reference process failed: %v: %s", err, trunc(string(out), 600))
+		}
+		if err := os.Rename(tmp, path); err != nil {
+			return err
+		}
+		if err := readJSON(path, &r); err != nil {
+			return err
+		}
+	}
+	c.pool, c.nHeavy = r.Pool, r.NHeavy
+	c.solo, c.soloC, c.soloF, c.soloV, c.steps = r.Solo, r.SoloC, r.SoloF, r.SoloV, r.Steps
+	if len(c.pool)-c.nHeavy < 20 {
+		return fmt.Errorf("C19: corpus too small after filtering: %d", len(c.pool))
+	}
+	c.worldR = filepath.Join(env.ScratchS, fmt.Sprintf("c19files-%d", os.Getpid()))
+	os.MkdirAll(c.worldR, 0755)
+	c.files = nil
 	for i, it := range c.pool {
 		fn := filepath.Join(c.worldR, fmt.Sprintf("f%03d.txt", i))
 		if err := os.WriteFile(fn, []byte(it.Text), 0644); err != nil {
 			return err
 		}
 		c.files = append(c.files, fn)
-		simrt.Reset(1, nil, 7)
-		simrt.Solo()
-		rand.Seed(12345)
-		v, oc := doCompile(it.Src)
-		c.soloC = append(c.soloC, oc)
-		var of Outcome
-		var ov []Outcome
-		if v != nil {
-			of, _ = doRunFiles(v, []string{fn}, engine.NOTHING, c.worldR)
-			for _, tx := range textVariants(it.Text) {
-				ov = append(ov, doRun(v, tx))
-			}
-		} else {
-			of = oc
-		}
-		c.soloV = append(c.soloV, ov)
-		simrt.Stop()
-		c.soloF = append(c.soloF, of)
-	}
-	if len(c.pool) < 20 {
-		return fmt.Errorf("C19: corpus too small after filtering: %d", len(c.pool))
 	}
 	return nil
 }
@@ -189,7 +282,8 @@ func (c *c19) SweepPrefix(phase string, i uint64) []uint64 {
 	b := rx[(i/K)%n]
 	k := i%K + 1
 	// draw order in Run: ntasks, nshared, [per task: nops, (kind, item)*], randseed hi/lo, mapseed, strategy, nplan, (delta,to)*
-	return []uint64{0 /*2 tasks*/, 0 /*no shared*/, 0, 0, uint64(a), 0, 0, uint64(b), 1, 1, 1, 1 /*strategy access*/, 1 /*one preemption*/, k - 1, 1}
+	// (each item draw is followed by the heavy-item draw: 0 = not heavy)
+	return []uint64{0 /*2 tasks*/, 0 /*no shared*/, 0 /*no hot item*/, 0, 0, uint64(a), 0, 0, 0, uint64(b), 0, 1, 1, 1, 1 /*strategy access*/, 1 /*one preemption*/, k - 1, 1}
 }
 
 func (c *c19) SweepCount(phase string) uint64 {
@@ -215,9 +309,34 @@ func (c *c19) Run(ctx *RunCtx) *RunResult {
 	t := ctx.T
 	n := t.Range(2, 4)
 	nshared := t.Range(0, 3)
+	light := len(c.pool) - c.nHeavy
+	drawItem := func() int {
+		item := t.Draw(light)
+		if c.nHeavy > 0 && t.Draw(250) == 1 {
+			item = light + t.Draw(c.nHeavy)
+			ctx.Count("heavy_item_drawn", 1)
+		}
+		return item
+	}
+	// now and then most ops of a run use one and the same program ("the same ... at the same time")
+	hot := -1
+	if t.Draw(3) == 1 {
+		hot = drawItem()
+		if c.nHeavy > 0 && t.Draw(20) == 1 {
+			hot = light + t.Draw(c.nHeavy) // the same large program or text used by several callers at once
+			ctx.Count("heavy_item_drawn", 1)
+		}
+		ctx.Count("run_with_hot_item", 1)
+	}
+	drawOpItem := func() int {
+		if hot >= 0 && t.Draw(2) == 1 {
+			return hot
+		}
+		return drawItem()
+	}
 	shared := make([]int, nshared)
 	for i := range shared {
-		shared[i] = t.Draw(len(c.pool))
+		shared[i] = drawOpItem()
 	}
 	work := make([][]c19op, n)
 	var estSteps uint64
@@ -225,7 +344,7 @@ func (c *c19) Run(ctx *RunCtx) *RunResult {
 		k := t.Range(1, 4)
 		for j := 0; j < k; j++ {
 			kind := t.Draw(4)
-			item := t.Draw(len(c.pool))
+			item := drawOpItem()
 			if (kind == 1 || kind == 3) && nshared == 0 {
 				kind = 0
 			}
@@ -327,6 +446,7 @@ func (c *c19) Run(ctx *RunCtx) *RunResult {
 	for ti := range outs {
 		outs[ti] = make([]Outcome, len(work[ti]))
 	}
+	mutated := make([]string, n)
 	simrt.Reset(n, plan, mapSeed)
 	rand.Seed(randSeed ^ 0x5a5a)
 	var wg sync.WaitGroup
@@ -341,8 +461,21 @@ func (c *c19) Run(ctx *RunCtx) *RunResult {
 				recover()
 			}()
 			simrt.WaitTurn(ti)
+			var held []engine.Matches
+			var heldAt []int
 			for j, op := range work[ti] {
-				outs[ti][j] = c.execOp(op, handles)
+				var ms engine.Matches
+				outs[ti][j], ms = c.execOp(op, handles)
+				if ms != nil {
+					held = append(held, ms)
+					heldAt = append(heldAt, j)
+				}
+			}
+			// what a call returned must still be what it returned once other calls have run
+			for k, ms := range held {
+				if d := matchesDigest(ms, false, ""); d != outs[ti][heldAt[k]].Digest {
+					mutated[ti] = fmt.Sprintf("op %d (%s %q): returned %q, the same list later reads %q", heldAt[k], work[ti][heldAt[k]].Kind, trunc(work[ti][heldAt[k]].Src, 60), trunc(outs[ti][heldAt[k]].Digest, 120), trunc(d, 120))
+				}
 			}
 		}()
 	}
@@ -381,6 +514,11 @@ func (c *c19) Run(ctx *RunCtx) *RunResult {
 	for _, r := range mraces {
 		addV("hb-monitor", "monitor:"+r, "unordered conflicting accesses to a package-level variable: "+r)
 	}
+	for ti, m := range mutated {
+		if m != "" {
+			addV("returned-data-stable", "result-mutated-after-return", fmt.Sprintf("task %d %s", ti, m))
+		}
+	}
 	// oracle (d): deadlock / abort
 	if deadlock {
 		addV("deadlock", "deadlock", "all unfinished tasks blocked on locks")
@@ -414,7 +552,7 @@ func (c *c19) Run(ctx *RunCtx) *RunResult {
 				continue
 			}
 			seen[id] = true
-			got := c.execOp(op, handles)
+			got, _ := c.execOp(op, handles)
 			want := c.want(op)
 			evh = mix(evh, hashStr(got.String()))
 			if !got.Same(want) {
@@ -471,13 +609,14 @@ func (c *c19) want(op c19op) Outcome {
 	}
 }
 
-func (c *c19) execOp(op c19op, handles map[int]*libvore.Vore) (out Outcome) {
+func (c *c19) execOp(op c19op, handles map[int]*libvore.Vore) (out Outcome, kept engine.Matches) {
 	budget := 200*c.steps[op.Item] + 100000
 	simrt.OpStart(budget)
 	defer simrt.OpEnd()
 	defer func() {
 		if r := recover(); r != nil {
 			out = panicOutcome(r)
+			kept = nil
 		}
 	}()
 	switch op.Kind {
@@ -486,30 +625,30 @@ func (c *c19) execOp(op c19op, handles map[int]*libvore.Vore) (out Outcome) {
 		v, o := doCompile(op.Src)
 		simrt.ProbeLeave(0)
 		if v == nil {
-			return o
+			return o, nil
 		}
-		return doRun(v, op.Text)
+		return doRunKeep(v, op.Text)
 	case "compile":
 		simrt.ProbeEnter(0)
 		_, o := doCompile(op.Src)
 		simrt.ProbeLeave(0)
-		return o
+		return o, nil
 	case "run-shared":
 		v := handles[op.Item]
 		if v == nil {
-			return c.soloC[op.Item]
+			return c.soloC[op.Item], nil
 		}
 		simrt.ProbeEnter(1)
 		defer simrt.ProbeLeave(1)
-		return doRun(v, op.Text)
+		return doRunKeep(v, op.Text)
 	default:
 		v := handles[op.Item]
 		if v == nil {
-			return c.soloC[op.Item]
+			return c.soloC[op.Item], nil
 		}
 		simrt.ProbeEnter(1)
 		defer simrt.ProbeLeave(1)
 		o, _ := doRunFiles(v, []string{c.files[op.Item]}, engine.NOTHING, c.worldR)
-		return o
+		return o, nil
 	}
 }
